@@ -65,10 +65,12 @@ def FType.toProto : FType → Nat
   | .invalid => 0 | .point => 1 | .path => 2 | .area => 3 | .relation => 4
   | .collection => 5 | .expression => 6
 
-/-- `NewFeatureTypeFromProto`; `none` = the `panic` for an unknown enum number -/
+/-- `NewFeatureTypeFromProto`: an unknown enum number names no feature type (`FeatureTypeInvalid`; it used to
+panic until fixes/C23-feature-type-from-proto.patch).  The `Option` is kept for the callers' shape: it is
+never `none`. -/
 def ftypeFromProto : Nat → Option FType
   | 0 => some .invalid | 1 => some .point | 2 => some .path | 3 => some .area
-  | 4 => some .relation | 5 => some .collection | 6 => some .expression | _ => none
+  | 4 => some .relation | 5 => some .collection | 6 => some .expression | _ => some .invalid
 
 /-! ## IDs -/
 
@@ -169,7 +171,7 @@ def fromYAMLString (s : Bytes) : FeatureID :=
 
 /-- `NewProtoFromFeatureID`: (enum number, namespace, value) -/
 def toProto (f : FeatureID) : Nat × Bytes × Nat := (f.type.toProto, f.ns, f.value)
-/-- `NewFeatureIDFromProto` of a non-nil message; `none` = panic on an unknown enum value -/
+/-- `NewFeatureIDFromProto` of a non-nil message (never `none` since `ftypeFromProto` is total) -/
 def fromProto (p : Nat × Bytes × Nat) : Option FeatureID :=
   (ftypeFromProto p.1).map fun t => ⟨t, p.2.1, p.2.2⟩
 
